@@ -1,7 +1,7 @@
 import os
 import vlib
 
-THEOREMS = ["Dispenso.Arena." + t for t in ['C37_seq_growBy', 'C37_seq_index_in_buffer', 'C37_seq_mk', 'C37_buffers_ledger', 'C37_pool_inv', 'C37_sem_copyCtor', 'C37_sem_copyAssign', 'C37_sem_moveAssign', 'C37_sem_swap', 'C37_sem_moveCtor', 'C37_sem_growBy', 'C37_conc_inv', 'C37_conc_index_in_buffer', 'C37_conc_local', 'C37_ranges_tile', 'C37_ranges_cover_once', 'C37_grow_returns_claim']] + ["Dispenso.Arena.Tables." + t for t in ['C37_tables_no_uaf', 'C37_tables_retained']]
+THEOREMS = ["Dispenso.Arena." + t for t in ['C37_seq_growBy', 'C37_seq_index_in_buffer', 'C37_seq_mk', 'C37_buffers_ledger', 'C37_pool_inv', 'C37_sem_copyCtor', 'C37_sem_copyAssign', 'C37_sem_moveAssign', 'C37_sem_swap', 'C37_sem_moveCtor', 'C37_sem_growBy', 'C37_conc_inv', 'C37_conc_index_in_buffer', 'C37_conc_local', 'C37_ranges_tile', 'C37_ranges_cover_once', 'C37_grow_returns_claim']] + ["Dispenso.Arena.Tables." + t for t in ['C37_tables_no_uaf', 'C37_tables_retained', 'C37_tables_refine_seq']]
 
 
 def run(ctx, replay):
